@@ -158,9 +158,18 @@ Fixpoint fire_rets (l : list vop) (xs : list Z) : list Z :=
   | _, _ => []
   end.
 
+(* stress op [4;n;g]: n rounds, each with a fresh Event and g goroutines calling Fire at once;
+   obs [number of rounds in which the number of true results was not exactly 1].  The model
+   evaluates one schedule (all CASes, then the closes); C57_event_fire_once says every schedule
+   gives the same count *)
+Fixpoint zsum (l : list Z) : Z := match l with [] => 0 | x :: r => x + zsum r end.
+Definition stress_bad (g : Z) : Z :=
+  let l := repeat VCas (Z.to_nat g) ++ repeat VClose (Z.to_nat g) in
+  if zsum (fire_rets l (snd (vsteps evs0 l))) =? 1 then 0 else 1.
 (* driver: [1] Fire() obs [ret]   [2] HasFired() obs [b]   [3] Done() closed? obs [b] *)
 Definition estep (s : evs) (op : word) : option (evs * word) :=
   match op with
+  | [4; n; g] => if (0 <=? n) && (1 <=? g) && (g <=? 64) then Some (s, [n * stress_bad g]) else None
   | [1] => let (s1, r) := vstep s VCas in let (s2, _) := vstep s1 VClose in Some (s2, [r])
   | [2] => Some (s, [snd (vstep s VHas)])
   | [3] => Some (s, [snd (vstep s VDone)])
@@ -250,6 +259,14 @@ Definition win_viol (es : list ent) : Z * Z :=
      snd acc + b2z ((1 <? ecb e) || ((eret e =? 0) && negb (ecb e =? 1))))) (0, 0) es.
 Definition win_remove_first : list xop := [XAdd 1 1 0; XFire 0; XRemove 1; XRun 0; XCb 0].
 Definition win_timer_first : list xop := [XAdd 1 1 0; XFire 0; XRun 0; XCb 0; XRemove 1].
+(* op [2;n;r]: the same window with Clear(r <> 0) in place of Remove.  obs [v1; v2]:
+   v1 = (r <> 0) iterations in which the callback did not run exactly once,
+   v2 = (r = 0) 1 if in more than half of the iterations the callback ran although Clear was
+   queued on the mutex before the timer fired (Clear has no result, so a single iteration cannot
+   tell a lost race from a violation; the forced order makes losing rare) *)
+Definition cb_total (es : list ent) : Z := fold_right (fun e acc => ecb e + acc) 0 es.
+Definition win_clear_first (r : bool) : list xop := [XAdd 1 1 0; XFire 0; XClear r; XRun 0; XCb 0].
+Definition win_timer_clear (r : bool) : list xop := [XAdd 1 1 0; XFire 0; XRun 0; XCb 0; XClear r; XCb 0].
 Definition wstep (op : word) : option word :=
   match op with
   | [1; n] =>
@@ -257,6 +274,13 @@ Definition wstep (op : word) : option word :=
     let a := win_viol (xsteps [] win_remove_first) in
     let b := win_viol (xsteps [] win_timer_first) in
     Some [n * (fst a + fst b); n * (snd a + snd b)]
+  | [2; n; r] =>
+    if n <? 0 then None else
+    let rb := negb (r =? 0) in
+    let k1 := cb_total (xsteps [] (win_clear_first rb)) in
+    let k2 := cb_total (xsteps [] (win_timer_clear rb)) in
+    Some [if rb then n * (b2z (negb (k1 =? 1)) + b2z (negb (k2 =? 1))) else 0;
+          if rb then 0 else b2z (negb (k1 =? 0))]
   | _ => None
   end.
 Fixpoint wexec (ops : list word) : option (list word) :=
@@ -290,7 +314,10 @@ Definition run (cfg : word) (ops : list word) : option (list word) :=
     9 refcount (while the usage contract holds): onZero has run exactly once iff the count
       reached zero, never twice
    10 cache, forced timer window: no callback for an entry that Remove handed out
-   11 cache, forced timer window: never twice; exactly once when Remove came too late *)
+   11 cache, forced timer window: never twice; exactly once when Remove came too late
+   12 event, stress: in every round of g concurrent Fire calls exactly one returns true
+   13 cache, forced timer window with Clear(true): the callback runs exactly once
+   14 cache, forced timer window with Clear(false): the callback does not run *)
 Definition cl := (Z * Z * bool)%type.
 
 (* cache monitor: present entries (key, item, deadline) in insertion order; gone = items whose
@@ -346,6 +373,7 @@ Definition clause2 (f : bool) (op obs : word) : bool * list cl :=
   | [1] => (true, [(6, 0, word_eqb obs [b2z (negb f)])])
   | [2] => (f, [(7, 0, word_eqb obs [b2z f])])
   | [3] => (f, [(7, 1, word_eqb obs [b2z f])])
+  | [4; n; _] => (f, [(12, n, word_eqb obs [0])])
   | _ => (f, [(0, 0, false)])
   end.
 Fixpoint clauses2 (f : bool) (ops obs : list word) : list cl :=
@@ -384,6 +412,7 @@ Fixpoint clauses3 (m : mon3) (ops obs : list word) : list cl :=
 Fixpoint clauses4 (ops obs : list word) : list cl :=
   match ops, obs with
   | [1; n] :: r, [v1; v2] :: r' => (10, n, v1 =? 0) :: (11, n, v2 =? 0) :: clauses4 r r'
+  | [2; n; _] :: r, [v1; v2] :: r' => (13, n, v1 =? 0) :: (14, n, v2 =? 0) :: clauses4 r r'
   | [], [] => []
   | _, _ => [(0, 0, false)]
   end.
@@ -412,11 +441,17 @@ Fixpoint wf1 (seen : list Z) (ops : list word) : bool :=
   | _ => false
   end.
 Definition op_wf2 (op : word) : bool := match op with [1] | [2] | [3] => true | _ => false end.
-Definition op_wf4 (op : word) : bool := match op with [1; n] => 0 <=? n | _ => false end.
+Definition op_wf2e (op : word) : bool :=
+  match op with
+  | [1] | [2] | [3] => true
+  | [4; n; g] => (0 <=? n) && (1 <=? g) && (g <=? 64)
+  | _ => false
+  end.
+Definition op_wf4 (op : word) : bool := match op with [1; n] | [2; n; _] => 0 <=? n | _ => false end.
 Definition wf (cfg : word) (ops : list word) : bool :=
   match cfg with
   | [1; tmo] => (1 <=? tmo) && wf1 [] ops
-  | [2] => forallb op_wf2 ops
+  | [2] => forallb op_wf2e ops
   | [3] => forallb op_wf2 ops
   | [4] => forallb op_wf4 ops
   | _ => false
